@@ -60,7 +60,7 @@ class CallOracle(NdContract):
         if name == "len" and isinstance(args[0], Abstract) and args[0].tag == "unique":
             st.assume(args[0].count >= 1)
             return args[0].count
-        if name in ("DummyClassifier", "sklearn.dummy.DummyClassifier"):
+        if name in ("DummyClassifier", "sklearn.dummy.DummyClassifier", "DummyRegressor", "sklearn.dummy.DummyRegressor"):
             return Abstract("est", kind="constant", constant=kwargs.get("constant"))
         if name in ("clone", "sklearn.base.clone", "sklearn.clone"):
             ok = kwargs.get("estimator", args[0] if args else None) is self.est
